@@ -41,6 +41,17 @@ def fail(ident, what, witness, wclass="value"):
 NAMES = ["A", "R:x", "x", "b c", "Ünï", "lower", "D/sub", "U:b c"]
 
 
+def finish():
+    samples.append({"templates": NAMES[:3], "edges": [[0, 1], [1, 2], [2, 0]], "flags": [0], "note": "3-cycle"})
+    emit({"evaluations": evaluations, "distinct_nontrivial": len({d for d in distinct if d[1] or d[3]}),
+          "rule": "distinct (template count, inclusion edge set, flag set, redirect placement, probe-before-add set) cases with "
+                  "at least one edge or redirect",
+          "failures": list(failures.values()), "samples": samples,
+          "bound": f"all inclusion graphs incl. self-inclusion on <= {nmax} templates x all flag sets; sampled graphs on 3..8 "
+                   "templates with redirects (to/from a marked template, chains of redirects) and lookups made before the page exists; 10 s watchdog"})
+    sys.exit(0)
+
+
 def closure(n, edges, flags, redirects):
     """least set containing flags, closed under includers; then one hop of redirects both ways"""
     m = set(flags)
@@ -105,7 +116,7 @@ def run_case(n, edges, flags, redirects, pre_probe=()):
         except Timeout:
             fail("core:Wtp.analyze_templates#terminates", "no result within 10 s",
                  {"n": n, "edges": edges, "flags": sorted(flags), "redirects": redirects}, "timeout")
-            return
+            finish()        # a non-terminating analysis: report at once instead of waiting 10 s per remaining case
         finally:
             signal.alarm(0)
         got = {p.title for p in ctx.get_all_pages([10]) if p.need_pre_expand}
@@ -208,7 +219,7 @@ def run_reanalysis(n1, n2, edges, flags, premarked):
                 ctx.analyze_templates(classify)
         except Timeout:
             fail("core:Wtp.analyze_templates#terminates", "re-analysis did not return in 10 s", {"edges": edges}, "timeout")
-            return
+            finish()
         finally:
             signal.alarm(0)
         got = {p.title for p in ctx.get_all_pages([10]) if p.need_pre_expand}
@@ -236,11 +247,4 @@ for _ in range(120 if tier == "quick" else 3000):
     premarked = {i for i in range(n1) if rng.random() < 0.2}
     run_reanalysis(n1, n2, edges, flags, premarked)
 run_reanalysis(2, 3, [(0, 1), (1, 2)], {0}, set())
-samples.append({"templates": NAMES[:3], "edges": [[0, 1], [1, 2], [2, 0]], "flags": [0], "note": "3-cycle"})
-
-emit({"evaluations": evaluations, "distinct_nontrivial": len({d for d in distinct if d[1] or d[3]}),
-      "rule": "distinct (template count, inclusion edge set, flag set, redirect placement, probe-before-add set) cases with "
-              "at least one edge or redirect",
-      "failures": list(failures.values()), "samples": samples,
-      "bound": f"all inclusion graphs incl. self-inclusion on <= {nmax} templates x all flag sets; sampled graphs on 3..8 "
-               "templates with redirects (to/from a marked template, chains of redirects) and lookups made before the page exists; 10 s watchdog"})
+finish()
